@@ -517,6 +517,37 @@ func (e *Engine) evalFunc(s *fstate, round int) {
 						continue // published where the finished struct is copied out (below)
 					}
 				}
+				if prm, ok := x.Addr.(*ssa.Parameter); ok {
+					// a store through a pointer the function was given (cx := &d.contexts[i]; finish(d, cx, …)
+					// with `*cx = next` inside): the value lands in whatever field or element the callers
+					// pass the address of
+					nv := e.at(s, x.Val, b, 0)
+					for _, tg := range e.pointerArgTargets(fn, prm, 0) {
+						if tg.elem {
+							old, had := e.elems[tg.k]
+							if !had {
+								old = Const(0)
+							}
+							if j := Join(old, nv); !had || !Equal(j, old) {
+								e.elems[tg.k] = e.widenSummary(old, j, x.Val.Type(), round)
+								e.changed = true
+							}
+						} else {
+							old, had := e.fields[tg.k]
+							if !had {
+								old = Bottom()
+								if e.hasZeroDefault(tg.k) {
+									old = Const(0)
+								}
+							}
+							if j := Join(old, nv); !had || !Equal(j, old) {
+								e.fields[tg.k] = e.widenSummary(old, j, x.Val.Type(), round)
+								e.changed = true
+							}
+						}
+					}
+					continue
+				}
 				if k, ok := fieldKeyOfAddr(x.Addr); ok {
 					nv := e.storeContribution(s, x)
 					old, had := e.fields[k]
@@ -1174,6 +1205,60 @@ func rootFieldAddr(v ssa.Value) (*ssa.FieldAddr, bool) {
 		}
 	}
 	return nil, false
+}
+
+type ptrTarget struct {
+	k    fieldKey
+	elem bool
+}
+
+// pointerArgTargets: the struct fields (or elements of slice / array fields) whose address the
+// analysed callers of fn pass for its pointer parameter prm; a parameter handed on is followed two
+// levels up.
+func (e *Engine) pointerArgTargets(fn *ssa.Function, prm *ssa.Parameter, depth int) []ptrTarget {
+	pi := -1
+	for i, p := range fn.Params {
+		if p == prm {
+			pi = i
+		}
+	}
+	n := e.cfg.CG.Nodes[fn]
+	if pi < 0 || n == nil || depth > 2 {
+		return nil
+	}
+	var out []ptrTarget
+	seen := map[ptrTarget]bool{}
+	for _, in := range n.In {
+		if in.Site == nil || in.Caller.Func == nil || e.fs[in.Caller.Func] == nil {
+			continue
+		}
+		args := in.Site.Common().Args
+		if in.Site.Common().IsInvoke() || pi >= len(args) || len(args) != len(fn.Params) {
+			continue
+		}
+		var tgs []ptrTarget
+		switch a := args[pi].(type) {
+		case *ssa.IndexAddr:
+			if fa, ok := rootFieldAddr(a.X); ok {
+				if tn := namedStruct(fa.X.Type()); tn != nil {
+					tgs = append(tgs, ptrTarget{fieldKey{tn, fa.Field}, true})
+				}
+			}
+		case *ssa.FieldAddr:
+			if k, ok := fieldKeyOfAddr(a); ok {
+				tgs = append(tgs, ptrTarget{k, false})
+			}
+		case *ssa.Parameter:
+			tgs = e.pointerArgTargets(in.Caller.Func, a, depth+1)
+		}
+		for _, t := range tgs {
+			if !seen[t] {
+				seen[t] = true
+				out = append(out, t)
+			}
+		}
+	}
+	return out
 }
 
 // localStruct: al is a struct-typed local variable that lives only in this function's frame: its
